@@ -26,6 +26,9 @@ func runC06(c *Ctx) {
 	c06Random(c)
 	c06Signature(c)
 	c06JWT(c)
+	c06MintedKeys(c)
+	c06SecretLength(c)
+	c06PARURI(c)
 }
 
 func c06R1(c *Ctx) {
